@@ -1,4 +1,5 @@
 import Proofs.Insert
+import Proofs.InsertWire
 /-
 C09 — Streamed INSERT sends one faithful block per input round, then a terminator.
 
@@ -21,6 +22,32 @@ theorem C09_blocks_are_round_snapshots (grow : Nat → Nat) (cap : Nat) (mem0 : 
       expected c0 rounds blank := by
   rw [refines_spec_outs grow cap mem0]
   exact (sendInput_spec c0 rounds blank { pending := [], mem := mem0, outs := [] } rfl rfl h).1
+
+/-- **On the wire** (uncompressed connection, where fixed-width column bodies are handed to the
+socket by reference): for every initial block, every callback history given as concrete blocks,
+every choice of which columns are zero-copy, the bytes the connection receives over all flushes are
+the Data packets of the round snapshots in order and then exactly one terminator packet — i.e.
+exactly the input part of the client stream of C02 — or, when a callback failed, the packets of the
+snapshots so far and nothing more. -/
+theorem C09_wire_is_input_part (grow : Nat → Nat) (cap : Nat) (mem0 : Mem) (s : Model.Send.Conn)
+    (hc : s.compressed = false) (zc : Model.Block.BCol → Bool) (c0 : Model.Send.Blk) (rounds : List BRound)
+    (h : Agrees mem0 0 (contentsOf s zc c0).cols) :
+    received (run grow { w := W.init cap, mem := mem0, outs := [] }
+        (sendInput true (contentsOf s zc c0) (rounds.map (toRound s zc))
+          (Model.Send.dataPacket s [] (Model.Block.blank s.v)))).outs =
+      Model.Send.inputPackets s (bSnapshots c0 rounds).1 ++
+        (if (bSnapshots c0 rounds).2 then Model.Send.dataPacket s [] (Model.Block.blank s.v) else []) := by
+  rw [C09_blocks_are_round_snapshots grow cap mem0 _ _ _ h]
+  exact expected_is_input_part s hc zc c0 rounds
+
+/-- … so a history without a failing callback produces `Send.inputPart` of its snapshots, the very
+bytes `C02_stream_parses` parses back into the blocks -/
+theorem C09_wire_ok_case (s : Model.Send.Conn) (c0 : Model.Send.Blk) (rounds : List BRound)
+    (hok : (bSnapshots c0 rounds).2 = true) :
+    Model.Send.inputPackets s (bSnapshots c0 rounds).1 ++
+        (if (bSnapshots c0 rounds).2 then Model.Send.dataPacket s [] (Model.Block.blank s.v) else []) =
+      Model.Send.inputPart s (some (bSnapshots c0 rounds).1) := by
+  simp [hok, Model.Send.inputPart]
 
 /-- per round: after encode → flush → callback, exactly that round's block has been delivered by
 that flush, nothing is pending, and the callback's changes are not part of it -/
